@@ -36,6 +36,10 @@ type world struct {
 	mirrorMsg []string
 	fieldInv  map[string]*FieldInvRef
 
+	counted      map[string]bool
+	reach        map[*Contract]map[string]bool
+	byMethodName map[string][]*ssa.Function
+
 	fieldCallHook func(x *ctx, st *state, fr *frame, fnv val, args []val, rt types.Type) ([]outcome, bool)
 }
 
@@ -266,4 +270,119 @@ func (w *world) ssaFunc(c *Contract) *ssa.Function {
 		f = o
 	}
 	return f
+}
+
+// countedName: some function contract with the flag `counted` has this (short) function name.
+func (w *world) countedName(name string) bool {
+	if w.counted == nil {
+		w.counted = map[string]bool{}
+		for _, c := range w.all {
+			if c.Flags["counted"] && c.Obj != nil {
+				w.counted[c.Obj.Name()] = true
+			}
+		}
+	}
+	return w.counted[name]
+}
+
+// reachableNames: the (short) names of all functions and methods that the function of con can reach statically:
+// through calls, closures, function values, bound methods, and interface method calls (by method name).
+func (w *world) reachableNames(con *Contract) map[string]bool {
+	if w.reach == nil {
+		w.reach = map[*Contract]map[string]bool{}
+	}
+	if r, ok := w.reach[con]; ok {
+		return r
+	}
+	r := map[string]bool{}
+	w.reach[con] = r
+	if con.Obj == nil {
+		return r
+	}
+	root := w.ssaFunc(con)
+	if root == nil {
+		return r
+	}
+	seen := map[*ssa.Function]bool{}
+	var queue []*ssa.Function
+	push := func(f *ssa.Function) {
+		if f == nil {
+			return
+		}
+		if o := f.Origin(); o != nil {
+			f = o
+		}
+		if !seen[f] {
+			seen[f] = true
+			queue = append(queue, f)
+			r[f.Name()] = true
+		}
+	}
+	push(root)
+	delete(r, root.Name())
+	for len(queue) > 0 {
+		f := queue[0]
+		queue = queue[1:]
+		for _, af := range f.AnonFuncs {
+			push(af)
+		}
+		for _, b := range f.Blocks {
+			for _, in := range b.Instrs {
+				if c, ok := in.(ssa.CallInstruction); ok {
+					cc := c.Common()
+					if cc.IsInvoke() {
+						r[cc.Method.Name()] = true
+						// every implementation in the repository of a method of that name
+						for _, g := range w.methodsNamed(cc.Method.Name()) {
+							push(g)
+						}
+					} else if sc := cc.StaticCallee(); sc != nil {
+						push(sc)
+					}
+				}
+				for _, op := range in.Operands(nil) {
+					if op == nil || *op == nil {
+						continue
+					}
+					switch v := (*op).(type) {
+					case *ssa.Function:
+						push(v)
+					case *ssa.MakeClosure:
+						if cf, ok := v.Fn.(*ssa.Function); ok {
+							push(cf)
+						}
+					}
+				}
+			}
+		}
+	}
+	return r
+}
+
+// methodsNamed: all methods with that name declared in the repository's packages.
+func (w *world) methodsNamed(name string) []*ssa.Function {
+	if w.byMethodName == nil {
+		w.byMethodName = map[string][]*ssa.Function{}
+		for _, pkg := range w.prog.AllPackages() {
+			if !strings.HasPrefix(pkg.Pkg.Path(), modulePath) {
+				continue
+			}
+			for _, m := range pkg.Members {
+				t, ok := m.(*ssa.Type)
+				if !ok {
+					continue
+				}
+				nt, ok := t.Type().(*types.Named)
+				if !ok {
+					continue
+				}
+				for i := 0; i < nt.NumMethods(); i++ {
+					if f := w.prog.FuncValue(nt.Method(i)); f != nil {
+						w.byMethodName[f.Name()] = append(w.byMethodName[f.Name()], f)
+					}
+				}
+			}
+		}
+	}
+	return w.byMethodName[name]
 }
